@@ -287,6 +287,8 @@ pub fn run(cat: &Catalog, cfg: &Config, stats: &mut Stats, run_seed: u64) -> Vec
             stats.count(&format!("fault_fired.{}", case.fault_kind));
         }
         stats.distinct.insert(case_hash(&case));
+        stats.note(case_hash(&case));
+        stats.note(model::rng::fnv(ev.outcome.as_bytes()));
         stats.tuples.insert(format!("{}|{}|{}", case.read_as, case.clause, ev.outcome));
         if stats.samples.len() < 5 && case.input.len() < 60 {
             let mut j = case.to_json();
